@@ -2,6 +2,8 @@
    case: "<id> key=value ...".  Each channel is served by extracted model functions. *)
 let channels : (string * ((string * string) list -> string)) list = [
   ("art", Chan_art.run);
+  ("flags", Chan_flags.run_flags);
+  ("jprops", Chan_flags.run_jprops);
 ]
 
 let () =
